@@ -464,4 +464,129 @@ def gen_sets() -> tuple[str, dict]:
     return '\n'.join(lines) + '\n', {'loops': [list(x) for x in loops]}
 
 
-GEN = {'VmfIds_gen': gen_ids, 'VmfSets_gen': gen_sets}
+# ------------------------------------------------------------------------------------------------ 2D viewport axis
+AXES = {'x': 'AX', 'y': 'AY', 'z': 'AZ'}
+
+
+def _intval(e: ast.AST) -> int | None:
+    if isinstance(e, ast.Constant) and isinstance(e.value, (int, float)) and not isinstance(e.value, bool) and float(e.value) == int(e.value):
+        return int(e.value)
+    if isinstance(e, ast.UnaryOp) and isinstance(e.op, ast.USub):
+        v = _intval(e.operand)
+        return None if v is None else -v
+    return None
+
+
+def gen_viewport() -> tuple[str, dict]:
+    import re
+    tree = ast.parse(src_text('vmf.py'))
+    cls = _classes(tree).get('Strata2DViewport')
+    if cls is None:
+        raise TranslateError('class Strata2DViewport not found')
+    exp = next((m for m in cls.body if isinstance(m, ast.FunctionDef) and m.name == 'export'), None)
+    rd = next((m for m in cls.body if isinstance(m, ast.FunctionDef) and m.name == 'from_vector'), None)
+    if exp is None or rd is None:
+        raise TranslateError('Strata2DViewport.export / from_vector not found')
+    # writer: the "position" template under each  self.axis == '<a>'  test
+    tbl: dict[str, list[str]] = {}
+
+    def template(js: ast.JoinedStr) -> str:
+        out = ''
+        for v in js.values:
+            if isinstance(v, ast.Constant):
+                out += str(v.value)
+            else:
+                names = {x.attr for x in ast.walk(v.value) if isinstance(x, ast.Attribute) and isinstance(x.value, ast.Name) and x.value.id == 'self'}
+                if names == {'u'}:
+                    out += '\x00U'
+                elif names == {'v'}:
+                    out += '\x00V'
+                else:
+                    out += '\x00?'
+        return out
+
+    def walk_if(n: ast.If) -> None:
+        t = n.test
+        ok = (isinstance(t, ast.Compare) and len(t.ops) == 1 and isinstance(t.ops[0], ast.Eq) and ast.unparse(t.left) == 'self.axis'
+              and isinstance(t.comparators[0], ast.Constant) and t.comparators[0].value in AXES)
+        if not ok:
+            raise TranslateError(f'Strata2DViewport.export: test {ast.unparse(t)} not understood')
+        axis = t.comparators[0].value
+        for st in n.body:
+            for js in [x for x in ast.walk(st) if isinstance(x, ast.JoinedStr)]:
+                m = re.search(r'"position" "\((.*?)\)"', template(js))
+                if m:
+                    parts = m.group(1).split(' ')
+                    if len(parts) != 3 or axis in tbl:
+                        raise TranslateError(f'Strata2DViewport.export: position template of axis {axis}: {m.group(1)!r}')
+                    sl = []
+                    for p in parts:
+                        if p == '\x00U':
+                            sl.append('SU')
+                        elif p == '\x00V':
+                            sl.append('SV')
+                        else:
+                            try:
+                                f = float(p)
+                            except ValueError:
+                                raise TranslateError(f'Strata2DViewport.export: slot {p!r} of axis {axis}')
+                            if f != int(f):
+                                raise TranslateError(f'Strata2DViewport.export: marker {p!r} is not integral')
+                            sl.append(f'(SMark ({int(f)}))')
+                    tbl[axis] = sl
+        if len(n.orelse) == 1 and isinstance(n.orelse[0], ast.If):
+            walk_if(n.orelse[0])
+        elif n.orelse:
+            raise TranslateError('Strata2DViewport.export: else branch of the axis chain not understood')
+    for st in exp.body:
+        if isinstance(st, ast.If):
+            walk_if(st)
+    if set(tbl) != set(AXES):
+        raise TranslateError(f'Strata2DViewport.export: position templates found for axes {sorted(tbl)}')
+    # reader: the tiers of marker values
+    tiers = None
+    for n in ast.walk(rd):
+        if isinstance(n, ast.For) and isinstance(n.iter, (ast.List, ast.Tuple)) and all(isinstance(e, (ast.Tuple, ast.List)) for e in n.iter.elts):
+            tt = [[_intval(x) for x in e.elts] for e in n.iter.elts]
+            if all(v is not None for t in tt for v in t):
+                if tiers is not None:
+                    raise TranslateError('Strata2DViewport.from_vector: two loops over marker tiers')
+                tiers = tt
+    if tiers is None:
+        raise TranslateError('Strata2DViewport.from_vector: no loop over a literal list of marker tuples found')
+    # the axes u and v are read from: the table the method indexes with the chosen axis, and the constructor call
+    ret = [n for n in ast.walk(rd) if isinstance(n, ast.Return) and isinstance(n.value, ast.Call)]
+    unp = [n for n in ast.walk(rd) if isinstance(n, ast.Assign) and isinstance(n.targets[0], ast.Tuple) and len(n.targets[0].elts) == 2
+           and isinstance(n.value, ast.Subscript)]
+    if len(ret) != 1 or len(unp) != 1:
+        raise TranslateError('Strata2DViewport.from_vector: return / unpacking shape not understood')
+    un, vn = (e.id for e in unp[0].targets[0].elts)
+    table_expr = ast.unparse(unp[0].value.value)
+    fields = [n.target.id for n in cls.body if isinstance(n, ast.AnnAssign) and isinstance(n.target, ast.Name)]
+    call = ret[0].value
+    argmap = dict(zip(fields, call.args))
+    argmap.update({k.arg: k.value for k in call.keywords})
+    swapped = None
+    if {ast.unparse(argmap.get('u', ast.Constant(0))), ast.unparse(argmap.get('v', ast.Constant(0)))} != {f'pos[{un}]', f'pos[{vn}]'}:
+        raise TranslateError('Strata2DViewport.from_vector: u / v are not pos[<unpacked axis>]')
+    swapped = ast.unparse(argmap['u']) == f'pos[{vn}]'
+    if table_expr not in ('Vec.INV_AXIS', 'INV_AXIS'):
+        raise TranslateError(f'Strata2DViewport.from_vector: axis table {table_expr}')
+    from srctools.math import Vec
+    inv = {}
+    for a in AXES:
+        pair = Vec.INV_AXIS[a]
+        if len(pair) != 2 or any(x not in AXES for x in pair):
+            raise TranslateError(f'Vec.INV_AXIS[{a!r}] = {pair!r}')
+        inv[a] = (pair[1], pair[0]) if swapped else (pair[0], pair[1])
+    lines = ['(* generated by translate/c06_ids.py from vmf.py / math.py -- do not edit *)',
+             'From Coq Require Import List ZArith.', 'From SV Require Import Fmt.VmfViewport.', 'Import ListNotations.', 'Open Scope Z_scope.', '',
+             'Definition gen_vp_tbl (a : ax) : slots :=\n  match a with ' + ' | '.join(
+                 f'{AXES[a]} => ({", ".join(tbl[a])})' for a in 'xyz') + ' end.',
+             'Definition gen_vp_inv (a : ax) : ax * ax :=\n  match a with ' + ' | '.join(
+                 f'{AXES[a]} => ({AXES[inv[a][0]]}, {AXES[inv[a][1]]})' for a in 'xyz') + ' end.',
+             'Definition gen_vp_tiers : list (list Z) := [' + '; '.join('[' + '; '.join(f'({v})' for v in t) + ']' for t in tiers) + '].']
+    return '\n'.join(lines) + '\n', {'slots': tbl, 'tiers': tiers, 'inv': {a: list(v) for a, v in inv.items()}}
+
+
+GEN = {'VmfIds_gen': gen_ids, 'VmfSets_gen': gen_sets, 'VmfViewport_gen': gen_viewport}
